@@ -919,19 +919,34 @@ func (s *c16State) apply(r c16Run) *c16State {
 	return t
 }
 func c16Canon(ops []c16Op) []string {
-	var xs []string
-	for _, o := range ops {
-		tgt := 0
-		if o.K == "edit" {
-			if o.Target >= 0 && o.Target < len(ops) && ops[o.Target].Gid >= 0 {
-				tgt = ops[o.Target].Gid + 1
+	// edits are replaced by their effect (the final text of each comment); a title change does not say which title it replaced
+	final := map[int]string{}
+	for i, o := range ops {
+		switch o.K {
+		case "create":
+			final[i] = o.T2
+		case "comment":
+			final[i] = o.T1
+		case "edit":
+			if _, ok := final[o.Target]; ok {
+				final[o.Target] = o.T1
 			}
 		}
-		t2 := o.T2
-		if o.K == "title" {
-			t2 = "" // the recorded previous title depends on the order
+	}
+	var xs []string
+	for i, o := range ops {
+		t1, t2 := o.T1, o.T2
+		switch o.K {
+		case "edit":
+			continue
+		case "create":
+			t2 = final[i]
+		case "comment":
+			t1 = final[i]
+		case "title":
+			t2 = ""
 		}
-		xs = append(xs, fmt.Sprintf("%s|%d|%d|%d|%q|%q|%d|%v", o.K, o.Gid, o.Author, o.Time, o.T1, t2, tgt, o.Flag))
+		xs = append(xs, fmt.Sprintf("%s|%d|%d|%d|%q|%q|%v", o.K, o.Gid, o.Author, o.Time, t1, t2, o.Flag))
 	}
 	sort.Strings(xs)
 	return xs
